@@ -1,0 +1,34 @@
+//go:build verif
+
+package dns
+
+import "net"
+
+// Hooks for the verification harness of property C14 (server admission and
+// routing). Add-only, compiled only with -tags verif, no behaviour change.
+
+// VerifMuxMatch exposes (*ServeMux).match.
+func VerifMuxMatch(mux *ServeMux, q string, t uint16) Handler { return mux.match(q, t) }
+
+// VerifServerInit applies the defaults ListenAndServe/ActivateAndServe apply
+// (accept function, invalid-message callback, handler, UDP size).
+func VerifServerInit(srv *Server) { srv.init() }
+
+// VerifServeDNS runs (*Server).serveDNS on the inbound message m with a
+// response writer bound either to the packet conn udp (replies go to addr) or
+// to the stream conn tcp, exactly as serveUDPPacket / serveTCPConn build it.
+func VerifServeDNS(srv *Server, m []byte, udp net.PacketConn, addr net.Addr, tcp net.Conn) {
+	w := &response{tsigProvider: srv.tsigProvider(), udp: udp, pcSession: addr, tcp: tcp}
+	if srv.DecorateWriter != nil {
+		w.writer = srv.DecorateWriter(w)
+	} else {
+		w.writer = w
+	}
+	srv.serveDNS(m, w)
+}
+
+// VerifHandleRefused exposes handleRefused.
+func VerifHandleRefused(w ResponseWriter, r *Msg) { handleRefused(w, r) }
+
+// VerifUnpackMsgHdr exposes unpackMsgHdr.
+func VerifUnpackMsgHdr(m []byte) (Header, int, error) { return unpackMsgHdr(m, 0) }
